@@ -1,7 +1,7 @@
 /* C08 (builderJ): the TLV child-list surgery behind "extending preserves the signature".
  * REAL, unmodified, executed together: signature_builder.c (replaceCalendarChain, removeCalAuthAndPublication,
- * KSI_SignatureBuilder_applyCalendarHashChain), tlv.c (KSI_TLV_new/free/getNestedList/replaceNestedTlv/appendNestedTlv),
- * list.c (find / replaceAt / remove / append / elementAt / length of the very list the children live in).
+ * KSI_SignatureBuilder_applyCalendarHashChain) and tlv.c (KSI_TLV_new/free/getNestedList/replaceNestedTlv/appendNestedTlv/
+ * getTag).  The list the children live in is the array-view model of env/ghost_sbview.h (list.c semantics; C19.list_*).
  * Plain mode; the base TLV has n <= SB_MAX_CHILDREN (default 6) children with arbitrary tags: level bounded(children <= 6).
  * The postconditions are stated over the WHOLE child view (spec/sb_view.h) read out of the real list array before and
  * after ONE call. */
@@ -15,96 +15,21 @@
 #include "net.h"
 #include "impl/signature_impl.h"
 #include "impl/signature_builder_impl.h"
-#include "env/ghost_sbview.h"
-#include "list.c"
 #include "tlv.c"
+#include "env/ghost_sbview.h"
 #include "signature_builder.c"
-
-#ifndef SB_MAX_CHILDREN
-#define SB_MAX_CHILDREN 6
-#endif
-
-static char s_ctx_store[8];
-#define S_CTX ((KSI_CTX *)(void *)s_ctx_store)
-static struct KSI_Signature_st s_sig;
-static struct KSI_CalendarHashChain_st s_oldcal, s_newcal;
-static struct KSI_CalendarAuthRec_st s_calauth;
-static struct KSI_PublicationRecord_st s_pub;
-static KSI_TLV *s_base;
-static int s_shape;                  /* 0: no base TLV, 1: children expanded, 2: raw empty payload (children not expanded) */
-
-/* field by field (not memset) so that symex keeps the constants, in particular nested == NULL of the children */
-static void sbh_init_tlv(KSI_TLV *t, unsigned tag) {
-	t->ctx = S_CTX; t->isNonCritical = 0; t->isForwardable = 0; t->tag = tag; t->buffer_size = 0; t->buffer = NULL; t->nested = NULL;
-	t->datap = NULL; t->datap_len = 0; t->relativeOffset = 0; t->absoluteOffset = 0;
-}
-
-/* the view of the real child list */
-static void sbh_snapshot(KSI_TLV *base, sb_view *v) {
-	size_t i;
-	sbv_clear(v);
-	if (base == NULL || base->nested == NULL || base->nested->pImpl == NULL) return;
-	{
-		struct listImpl_st *im = (struct listImpl_st *)base->nested->pImpl;
-		for (i = 0; i < SBV_MAX; i++) if (i < im->arr_len) sbv_push(v, im->arr[i].ptr, ((KSI_TLV *)im->arr[i].ptr)->tag);
-	}
-}
-
-/* a signature object as the parser leaves it: base TLV 0x800 with n children of arbitrary tags; the typed fields mirror the
- * children (calendarChain != NULL <=> a 0x802 child exists, ...): established by KSI_TlvTemplate_extract (C10.engine,
- * C10.tables_signature) - precondition derived from the call sites (builder->sig is always a parsed clone). */
-static void sbh_make_signature(sb_view *old) {
-	size_t n = nondet_size(), i;
-	KSI_TLV *base = NULL;
-	memset(&g_sbv, 0, sizeof(g_sbv));
-	s_sig.ctx = S_CTX; s_sig.ref = 1;
-	s_shape = nondet_int();
-	__CPROVER_assume(s_shape >= 0 && s_shape <= 2);
-	__CPROVER_assume(n <= SB_MAX_CHILDREN);               /* the stated bound of the job */
-	sbv_clear(old);
-	if (s_shape != 0) {
-		base = malloc(sizeof(struct KSI_TLV_st)); __CPROVER_assume(base != NULL);
-		sbh_init_tlv(base, 0x800);
-		if (s_shape == 1) {
-			KSI_LIST(KSI_TLV) *l = NULL;
-			struct listImpl_st *im;
-			int r = KSI_TLVList_new(&l);                      /* REAL constructor: call-backs, obj_free = KSI_TLV_free */
-			__CPROVER_assume(r == KSI_OK);
-			/* the array is laid out directly (typed allocation: pointers kept in a calloc'ed byte array make CBMC's
-			 * propositional reduction run out of memory); slot count as after the first growth of appendElement */
-			im = (struct listImpl_st *)l->pImpl;
-			im->arr = malloc(sizeof(struct listEl_st) * KSI_LIST_SIZE_INCREMENT); __CPROVER_assume(im->arr != NULL);
-			im->arr_size = KSI_LIST_SIZE_INCREMENT; im->arr_len = n;
-			for (i = 0; i < KSI_LIST_SIZE_INCREMENT; i++) { im->arr[i].initialIdx = 0; im->arr[i].ptr = NULL; im->arr[i].cmp = NULL; }
-			for (i = 0; i < SB_MAX_CHILDREN; i++) if (i < n) {
-				KSI_TLV *k = malloc(sizeof(struct KSI_TLV_st)); __CPROVER_assume(k != NULL);
-				sbh_init_tlv(k, nondet_uint());
-				__CPROVER_assume(k->tag <= 0x1fff);
-				im->arr[i].ptr = k;
-			}
-			base->nested = l;
-		}
-	}
-	s_base = base; s_sig.baseTlv = base;
-	sbh_snapshot(base, old);
-	s_sig.calendarChain = sbv_count(old, SBV_TAG_CAL) > 0 ? &s_oldcal : NULL;
-	s_sig.calendarAuthRec = sbv_count(old, SBV_TAG_CAL_AUTH) > 0 ? &s_calauth : NULL;
-	s_sig.publication = sbv_count(old, SBV_TAG_PUB) > 0 ? &s_pub : NULL;
-}
-
-static void sbh_release(void) { if (s_base != NULL) KSI_TLV_free(s_base); }
 
 #ifdef H_removeAnchors
 void harness(void) {
-	sb_view old, now, want;
+	sb_view old, now;
 	KSI_CalendarAuthRec *oldAuth; KSI_PublicationRecord *oldPub;
+	size_t w = nondet_size();                 /* witness index: an arbitrary child of the old view */
 	int res;
 	sbh_make_signature(&old);
 	oldAuth = s_sig.calendarAuthRec; oldPub = s_sig.publication;
 	res = removeCalAuthAndPublication(nondet_bool() ? &s_sig : NULL);
 	sbh_snapshot(s_base, &now);
-	sbv_remove_anchors(&old, &want);
-	__CPROVER_assert(IMPLIES(res == KSI_OK, sbv_equal(&now, &want)), "OK: exactly the 0x803/0x805 children are gone, every other child keeps identity and order");
+	__CPROVER_assert(IMPLIES(res == KSI_OK, sbv_wit_remove_anchors(&old, &now, w)), "OK: exactly the 0x803/0x805 children are gone, every other child keeps identity and order");
 	__CPROVER_assert(IMPLIES(res == KSI_OK, sbv_count(&now, SBV_TAG_PUB) == 0 && sbv_count(&now, SBV_TAG_CAL_AUTH) == 0), "OK: no publication / calendar auth child remains");
 	__CPROVER_assert(IMPLIES(res == KSI_OK, s_sig.calendarAuthRec == NULL && s_sig.publication == NULL), "OK: the typed auth record and publication record are detached");
 	__CPROVER_assert(IMPLIES(res == KSI_OK, g_sbv.calauth_free_calls == (oldAuth != NULL ? 1 : 0) && g_sbv.pub_free_calls == (oldPub != NULL ? 1 : 0)), "OK: the former records are released exactly once");
@@ -112,29 +37,29 @@ void harness(void) {
 	__CPROVER_assert(IMPLIES(res != KSI_OK, s_sig.calendarAuthRec == oldAuth && s_sig.publication == oldPub && g_sbv.calauth_free_calls == 0 && g_sbv.pub_free_calls == 0), "error: the typed records are untouched");
 	__CPROVER_assert(s_sig.calendarChain == (sbv_count(&old, SBV_TAG_CAL) > 0 ? &s_oldcal : NULL) && g_sbv.cal_free_calls == 0, "the calendar chain is not touched");
 	__CPROVER_assert(s_sig.baseTlv == s_base, "the base TLV object stays");
+	__CPROVER_assert(g_sbl_elem_free_calls == old.n - now.n, "one release per removed child");
+	sbh_release(&now, NULL);                /* + --memory-leak-check: exactly the removed children were released by the code */
 	if (res == KSI_OK && old.n > now.n) REACH("anchor children removed");
 	if (res == KSI_OK && old.n == now.n + 2) REACH("two anchor children removed");
 	if (res == KSI_OK && old.n == SB_MAX_CHILDREN && now.n == SB_MAX_CHILDREN) REACH("full list, nothing to remove");
 	if (res == KSI_OK && now.n >= 3 && old.n > now.n && old.tag[0] == SBV_TAG_PUB) REACH("removal at the head shifts three kept children");
 	if (res != KSI_OK) REACH("refused");
-	sbh_release();
 }
 #endif
 
 #if defined(H_replaceCal) || defined(H_applyCal)
 void harness(void) {
-	sb_view old, now, want, keptOld, keptNow;
+	sb_view old, now;
+	size_t w = nondet_size();                 /* witness index: an arbitrary child of the old view */
 	KSI_CalendarHashChain *oldCal; KSI_CalendarAuthRec *oldAuth; KSI_PublicationRecord *oldPub;
 	KSI_CalendarHashChain *arg = nondet_bool() ? &s_newcal : NULL;
 	int res;
 	sbh_make_signature(&old);
 	oldCal = s_sig.calendarChain; oldAuth = s_sig.calendarAuthRec; oldPub = s_sig.publication;
-	sbv_kept_part(&old, &keptOld);
 #ifdef H_replaceCal
 	res = replaceCalendarChain(nondet_bool() ? &s_sig : NULL, arg);
 	sbh_snapshot(s_base, &now);
-	sbv_replace_cal(&old, g_sbv.construct_tlv, &want);
-	__CPROVER_assert(IMPLIES(res == KSI_OK, sbv_equal(&now, &want)), "OK: the 0x802 child is replaced in place (appended when there was none), every other child keeps identity and order");
+	__CPROVER_assert(IMPLIES(res == KSI_OK, sbv_wit_replace_cal(&old, &now, g_sbv.construct_tlv, w)), "OK: the 0x802 child is replaced in place (appended when there was none), every other child keeps identity and order");
 	__CPROVER_assert(IMPLIES(res == KSI_OK, g_sbv.cal_free_calls == (oldCal != NULL ? 1 : 0) && IMPLIES(oldCal != NULL, g_sbv.cal_freed == oldCal)), "OK: the former typed chain is released exactly once");
 	__CPROVER_assert(IMPLIES(res == KSI_OK, s_sig.calendarAuthRec == oldAuth && s_sig.publication == oldPub), "replaceCalendarChain does not touch the anchors");
 	__CPROVER_assert(IMPLIES(res != KSI_OK, sbv_equal(&now, &old)), "error: the child view is unchanged");
@@ -147,8 +72,7 @@ void harness(void) {
 		__CPROVER_assert(b.sig == &s_sig, "the builder keeps its signature");
 	}
 	sbh_snapshot(s_base, &now);
-	sbv_extend(&old, g_sbv.construct_tlv, &want);
-	__CPROVER_assert(IMPLIES(res == KSI_OK, sbv_equal(&now, &want)), "OK: view = old view with the calendar chain replaced/appended and the 0x803/0x805 children removed; nothing else moves");
+	__CPROVER_assert(IMPLIES(res == KSI_OK, sbv_wit_extend(&old, &now, g_sbv.construct_tlv, w)), "OK: view = old view with the calendar chain replaced/appended and the 0x803/0x805 children removed; nothing else moves");
 	__CPROVER_assert(IMPLIES(res == KSI_OK, sbv_count(&now, SBV_TAG_PUB) == 0 && sbv_count(&now, SBV_TAG_CAL_AUTH) == 0 &&
 			s_sig.calendarAuthRec == NULL && s_sig.publication == NULL), "OK: any former publication or authentication record is removed (TLV child and typed field)");
 	__CPROVER_assert(IMPLIES(res == KSI_OK, g_sbv.cal_ref_calls == 1 && g_sbv.cal_free_calls == (oldCal != NULL ? 1 : 0) &&
@@ -157,15 +81,15 @@ void harness(void) {
 	__CPROVER_assert(IMPLIES(res != KSI_OK && s_sig.calendarChain == oldCal, g_sbv.cal_free_calls == g_sbv.cal_ref_calls && IMPLIES(g_sbv.cal_free_calls == 1, g_sbv.cal_freed == arg)), "error before the chain is in place: the reference taken is given back");
 	__CPROVER_assert(IMPLIES(res != KSI_OK && g_sbv.construct_calls == 0, sbv_equal(&now, &old) && s_sig.calendarChain == oldCal), "error before anything was built: nothing changed");
 #endif
-	sbv_kept_part(&now, &keptNow);
 	/* property text, independent of the constructive reference */
-	__CPROVER_assert(sbv_equal(&keptNow, &keptOld), "aggregation chains, aggregation auth record, RFC3161 record and unknown elements keep identity and order (any outcome)");
+	__CPROVER_assert(sbv_wit_kept_equal(&old, &now, w), "aggregation chains, aggregation auth record, RFC3161 record and unknown elements keep identity and order (any outcome)");
 	__CPROVER_assert(IMPLIES(res == KSI_OK, arg != NULL && s_sig.calendarChain == arg), "OK: the signature carries the supplied calendar chain");
 	__CPROVER_assert(IMPLIES(res == KSI_OK, g_sbv.construct_calls == 1 && g_sbv.construct_res == KSI_OK && g_sbv.construct_payload == (const void *)arg &&
 			g_sbv.construct_tmpl == (const void *)KSI_TLV_TEMPLATE(KSI_CalendarHashChain) && g_sbv.construct_tag == SBV_TAG_CAL), "OK: the new child is a 0x802 TLV constructed from the supplied chain with the calendar chain template");
 	__CPROVER_assert(IMPLIES(res == KSI_OK && sbv_count(&old, SBV_TAG_CAL) <= 1,
 			sbv_count(&now, SBV_TAG_CAL) == 1 && now.id[sbv_first(&now, SBV_TAG_CAL)] == g_sbv.construct_tlv), "OK: exactly one calendar chain child, the new one");
 	__CPROVER_assert(s_sig.baseTlv == s_base, "the base TLV object stays");
+	sbh_release(&now, g_sbv.construct_tlv); /* + --memory-leak-check: what left the view (and a new TLV that did not enter it) was released by the code */
 	if (res == KSI_OK && oldCal != NULL) REACH("calendar chain replaced");
 	if (res == KSI_OK && oldCal != NULL && old.n >= 3 && old.tag[1] == SBV_TAG_CAL) REACH("calendar chain in the middle replaced");
 	if (res == KSI_OK && oldCal == NULL && old.n > 0) REACH("calendar chain appended");
@@ -177,6 +101,5 @@ void harness(void) {
 	if (res == KSI_OK && oldPub != NULL && oldCal != NULL) REACH("extended: publication record dropped");
 	if (res == KSI_OK && oldAuth != NULL && oldCal != NULL) REACH("extended: calendar auth record dropped");
 #endif
-	sbh_release();
 }
 #endif
